@@ -272,6 +272,28 @@ func drive(args []string) int {
 			results[i] = runShard(bin, spec, *prop, *tier, seed, i, nshards, runDir, timeout)
 		}(i)
 	}
+	// the sampled 32-bit shard (see below) runs at the same time as the native shards
+	var sample386 *shardResult
+	sample386Pick := -1
+	if spec.Extra386Shards == 0 && !spec.No386Sample && spec.Binary == "" {
+		bin386 := filepath.Join(*bindir, "vcheck-386")
+		if _, err := os.Stat(bin386); err == nil {
+			if _, err := exec.Command(bin386, "list").CombinedOutput(); err == nil {
+				runDir386 := filepath.Join(runDir, "386")
+				os.MkdirAll(runDir386, 0o755)
+				sample386Pick = int((seed*5 + 3) % int64(nshards))
+				if sample386Pick < 0 {
+					sample386Pick = -sample386Pick
+				}
+				wg.Add(1)
+				go func() {
+					defer wg.Done()
+					r := runShard(bin386, spec, *prop, *tier, seed, sample386Pick, nshards, runDir386, timeout)
+					sample386 = &r
+				}()
+			}
+		}
+	}
 	wg.Wait()
 
 	// every other check (except the race build and the allocation measurements) runs ONE of its
@@ -280,19 +302,10 @@ func drive(args []string) int {
 	// 1 << (c & 63) on a uint)
 	note386 := ""
 	if spec.Extra386Shards == 0 && !spec.No386Sample && spec.Binary == "" {
-		bin386 := filepath.Join(*bindir, "vcheck-386")
-		if _, err := os.Stat(bin386); err != nil {
-			note386 = "sampled 32-bit pass not run: no GOARCH=386 build of the checker"
-		} else if out, err := exec.Command(bin386, "list").CombinedOutput(); err != nil {
-			note386 = "sampled 32-bit pass not run: the GOARCH=386 build does not execute here (" + err.Error() + " " + strings.TrimSpace(string(out)) + ")"
+		if sample386 == nil {
+			note386 = "sampled 32-bit pass not run: no GOARCH=386 build of the checker, or it does not execute here"
 		} else {
-			runDir386 := filepath.Join(runDir, "386")
-			os.MkdirAll(runDir386, 0o755)
-			pick := int((seed*5 + 3) % int64(nshards))
-			if pick < 0 {
-				pick = -pick
-			}
-			r := runShard(bin386, spec, *prop, *tier, seed, pick, nshards, runDir386, timeout)
+			r := *sample386
 			var n386 int64
 			if r.rep != nil {
 				n386 = r.rep.Evaluations
@@ -300,7 +313,7 @@ func drive(args []string) int {
 			}
 			r.shard += 1000
 			results = append(results, r)
-			note386 = fmt.Sprintf("sampled 32-bit pass: shard %d of %d once more on a GOARCH=386 build of checker and library, %d monitored executions (included in the execution total, not in the distinct-case counts)", pick, nshards, n386)
+			note386 = fmt.Sprintf("sampled 32-bit pass: shard %d of %d once more on a GOARCH=386 build of checker and library, %d monitored executions (included in the execution total, not in the distinct-case counts)", sample386Pick, nshards, n386)
 		}
 		fmt.Println(note386)
 	}
